@@ -19,7 +19,12 @@ key holds the function object).  This file adds what the source does with loops,
 * `chi2Mix` = `sum_chi2_ppf` with the chi-square cdf values as inputs;
 * `llSum` = `Inference.ll(model, data)` (the function `get_godambe` differentiates): the sum of the generated per-entry expression
   `llBin` over the entries that the generated mask analysis leaves unmasked (`llCellMasked`), with `log(model)` and
-  `gammaln(data + 1)` as inputs.
+  `gammaln(data + 1)` as inputs;
+* round 5: `bootGrads` (the zip of bootstraps and theta adjustments the gradients are taken over), `runCacheAdj` (the cache with
+  `theta_adjust`: is the stored spectrum rescaled in place? – generated effect flags `fsFreshProduct`, `fsSkipsUnitAdjust`), `mixVal` over the
+  generated (degrees of freedom, weight) pairing `chi2Pairs`, `llModelSeen/llCellsND` (P-population and folded data: the model is folded
+  with the pointwise programs generated from `Spectrum.fold` when the generated `llFoldsModel` says the prologue is there), `flatIdx`
+  (corners of a P-population spectrum in the flat array).
 -/
 namespace DadiVerif
 namespace Godambe
